@@ -252,6 +252,15 @@ func Violate(key, what string, replayDoc interface{}) bool {
 	}
 	st.frozen = true
 	st.mu.Unlock()
+	// Persist at once: if the process later dies (test timeout while shrinking, crash) the
+	// driver still sees the violation.
+	if outp := os.Getenv("VERIF_OUT"); outp != "" {
+		if f, err := os.OpenFile(outp+".viol", os.O_APPEND|os.O_CREATE|os.O_WRONLY, 0o644); err == nil {
+			b, _ := json.Marshal(Violation{key, what, p})
+			_, _ = f.Write(append(b, '\n'))
+			_ = f.Close()
+		}
+	}
 	fmt.Fprintf(os.Stderr, "VERIF-VIOLATION key=%s what=%s replay=%s\n", key, oneLine(what), p)
 	return true
 }
